@@ -253,6 +253,54 @@ pub fn run(ctx: &Ctx) {
             check(shape, &f, false, l)
         },
     );
+    // long frames: zeros then a run of >= 254 non-zero bytes; frames ending right after a full
+    // 0xFF block with and without sentinel; every truncation point around the block boundaries
+    let nn = ctx.tier.pick(6_000, 60_000);
+    ctx.par_proptest(
+        "long-frames-around-full-blocks",
+        nn,
+        || {
+            (
+                proptest::collection::vec(prop_oneof![Just(0u8), Just(0u8), 1u8..=255], 0..5),
+                prop_oneof![250usize..260, 505usize..512, 254usize..255, 508usize..509, 762usize..763],
+                proptest::collection::vec(prop_oneof![Just(0u8), 1u8..=255], 0..4),
+                0usize..3,
+            )
+        },
+        |(pre, run, post, si), l| {
+            let shapes = [Shape::ByteBuf, Shape::Seq(Box::new(Shape::U8)), Shape::Struct(Name("S"), vec![(Name("a"), Shape::Str), (Name("b"), Shape::Bytes)])];
+            let shape = &shapes[*si];
+            let mut payload = pre.clone();
+            payload.extend(std::iter::repeat(0x51u8).take(*run));
+            payload.extend_from_slice(post);
+            // make the payload a plausible message for length-prefixed shapes: prefix with its varint length
+            let mut msg = crate::refcodec::ref_encode(&Shape::U64, &crate::dynshape::Value::U(payload.len() as u128)).unwrap().bytes;
+            msg.extend_from_slice(&payload);
+            for m in [&payload, &msg] {
+                let f = refcobs::frame(m);
+                check(shape, &f, true, l)?;
+                // no sentinel
+                check(shape, &f[..f.len() - 1], false, l)?;
+                // cut right after each full block and one byte either side
+                let enc = &f[..f.len() - 1];
+                let mut i = 0;
+                while i < enc.len() {
+                    let code = enc[i] as usize;
+                    let next = i + code;
+                    for cut in [next.saturating_sub(1), next, next + 1] {
+                        if cut <= enc.len() {
+                            check(shape, &enc[..cut], cut % 2 == 0, l)?;
+                            let mut with_tail = enc[..cut].to_vec();
+                            with_tail.extend_from_slice(&[0, 2, 9, 0]);
+                            check(shape, &with_tail, cut % 2 == 1, l)?;
+                        }
+                    }
+                    i = next;
+                }
+            }
+            Ok(())
+        },
+    );
     let n = ctx.tier.pick(1_500_000, 20_000_000);
     ctx.par_proptest(
         "random-bytes",
